@@ -587,15 +587,8 @@ func (sd *SpecAnalyser) CompareProps(type1, type2 *spec.SchemaProps) []TypeDiff 
 
 	diffs = CheckStringTypeChanges(diffs, type1, type2)
 
-	if len(diffs) > 0 {
-		return diffs
-	}
-
+	// a change of format is compatible with a change of bounds: keep checking
 	diffs = checkNumericTypeChanges(diffs, type1, type2)
-
-	if len(diffs) > 0 {
-		return diffs
-	}
 
 	return diffs
 }
